@@ -257,6 +257,9 @@ class Unit:
             # N6: restricted visibility on a type declaration is widened to `pub` (Verus derives `open` accessor spec functions for
             # datatypes, which must be `pub`; visibility has no run-time meaning)
             text = re.sub(r"(?m)^(\s*)pub\((crate|super)\)\s+(struct|enum)\b", r"\1pub \3", text, count=1)
+            if it.get("pub_tuple_field"):
+                # N6 (same reason): the single private field of a newtype `struct W<..>(Inner)` is widened to `pub`
+                text = re.sub(r"(\bstruct\s+\w+\s*(?:<[^>]*>)?\s*\()\s*(?!pub\b)", r"\1pub ", text, count=1)
             # ... and so is restricted visibility of its fields (a `pub open spec fn` may only read `pub` fields)
             text = re.sub(r"(?m)^(\s*)pub\((crate|super)\)\s+(\w+\s*:)", r"\1pub \3", text)
         derives = re.search(r"#\[derive\(([^)]*)\)\]", text)
@@ -286,7 +289,9 @@ class Unit:
         if it.get("external_body"):
             gen.add("#[verifier::external_body]", ("gen", "assumed"))
         if it.get("reject_recursive_types"):
-            gen.add("#[verifier::reject_recursive_types(%s)]" % it["reject_recursive_types"], ("gen", "companion"))
+            rr = it["reject_recursive_types"]
+            for tp in (rr if isinstance(rr, list) else [rr]):
+                gen.add("#[verifier::reject_recursive_types(%s)]" % tp, ("gen", "companion"))
         gen.add_src(text, file, item.line_start)
         generics = it.get("generics", "")       # e.g. "<S: Database>"
         gargs = it.get("generic_args", "")      # e.g. "<S>"
